@@ -1,7 +1,7 @@
 (* Extraction of the broker-connection monitor and its trace specifications. *)
 From Coq Require Import ExtrOcamlBasic List NArith.
 From Coq.Strings Require Import Byte.
-From GM Require Import Codec.Packet Session.Ids Session.Store Broker.Conn Broker.ConnSpec Broker.ConnSpec2 Broker.ConnSpec3 Broker.ConnSpec5 Broker.ConnSpec6 Broker.ConnProofsCDefs Broker.EndToEnd Broker.ConnSpec7.
+From GM Require Import Codec.Packet Session.Ids Session.Store Broker.Conn Broker.ConnSpec Broker.ConnSpec2 Broker.ConnSpec3 Broker.ConnSpec5 Broker.ConnSpec6 Broker.ConnProofsCDefs Broker.EndToEnd Broker.ConnSpec7 Broker.WillE2E.
 Extraction Language OCaml.
 Separate Extraction
   Byte.to_N Byte.of_N N.of_nat N.to_nat Datatypes.length
@@ -19,4 +19,4 @@ Separate Extraction
   ConnSpec6.c07_release_in_ack ConnSpec6.c20_acted_on ConnSpec6.c20_closes ConnSpec6.c16_quiescent_dequeuing
   ConnSpec6.c08_deqack_after_store ConnSpec6.c08_store_replica
   EndToEnd.forward_link EndToEnd.arrival_link
-  ConnSpec7.c08_ledger.
+  ConnSpec7.c08_ledger WillE2E.will_link.
